@@ -1017,7 +1017,7 @@ def gen_special_bytes(tier, rng):
     shapes = [(1, 1), (1, 2), (2, 1)] + ([(1, 3), (2, 2)] if big else [])
     for (r, c) in shapes:
         hdr = HDRS[c]
-        pool = CR_POOL if (big or r * c <= 2) else CR_POOL[:8]
+        pool = CR_POOL if r * c <= 2 else CR_POOL[:8] if r * c == 3 else CR_POOL[:6]
         for cells in itertools.product(pool, repeat=r * c):
             if not any('\r' in x for x in cells):
                 continue                                   # section A has them
@@ -1366,13 +1366,26 @@ RULE = ('exhaustive small scope: every table over a 9-cell grammar pool (empty, 
         'read one, two and three per pass with the cell pattern rotating through the pool (long histories); seeded random '
         'tables of 2..5 typed columns x 3..24 rows read in 3..12 passes; lengths / pass counts around every new small literal of the '
         'tree under test; 1 typed case in 8 (random part: 4 in 10) writes into a real HDF5 dataframe (~30 ms), the others into a '
-        'casting, copying memory stand-in. Non-trivial = '
+        'casting, copying memory stand-in. SPECIAL BYTES (TC05): the cell alphabets hold every byte the kernel compares against or looks '
+        'ahead for - separator, quote, LF, blank and CR, alone and in pairs (CR LF, LF CR, quote CR, CR quote): every table over a '
+        '10-cell CR pool for shapes 1x1, 1x2, 2x1 (thorough: 1x3, 2x2) x LF and CRLF line breaks x final newline x EVERY supported '
+        'chunk_row_size; 1/2/3-byte budgets on CR cells; full HDF5 and typed imports of CR cells; CR / CR LF inside quoted cells at '
+        'text level against csv.reader; a lone CR outside quotes (not RFC-4180) model-vs-implementation only. SEVERAL TABLES (TC05, '
+        'op=imp, importer.import_with_schema into a real HDF5 dataset): 1, 2 and 3 tables x EVERY include dictionary (no dictionary, '
+        'empty dictionary, each table unnamed / [] / first / last / all columns) x EVERY exclude dictionary likewise (3 tables: reduced '
+        'forms), all orders of 3 files against schema and dictionary order, schema tables that are not imported, columns that are not '
+        'in the schema, 4 tables x every subset named, the same column names in several tables; seeded random 1..5 tables with random '
+        'dictionaries; table / column counts around every new small literal; malformed calls (dictionary naming a table that is not '
+        'imported or a column the table lacks, table without schema, reserved column name, no file) model-vs-implementation only. Non-trivial = '
         'the call parses at least the header of a generated table.')
-TRUSTED = ['csv.DictReader header sniffing (number of columns, field names), np.fromfile, guess_encoding: exercised, not modelled',
+TRUSTED = ['load_schema (JSON schema file -> importer definitions), Session.open_dataset / require_dataframe: exercised by op=imp, not modelled',
+           'csv.DictReader header sniffing (number of columns, field names), np.fromfile, guess_encoding: exercised, not modelled',
            'HDF5 field storage (write_part = append): property C01; op=drv uses an append-only stand-in, op=csv the real fields, '
            'op=typ the real fields or (mem) a stand-in that casts to the field dtype and copies on write_part as h5py does',
            "Python's csv.reader is the reference parser for text-level cases; table-level cases are their own reference"]
 ASSUMPTIONS = ['stop_after_rows is None', 'column names are distinct',
+               'op=imp: table names (keys of files / of the dictionaries) are distinct (Python dicts), every column is a string column, '
+               'the destination dataset is new (overwrite irrelevant), one timestamp',
                'typed columns (op=typ): string, fixed string, categorical with and without free text, bool, int8..int32 - what a '
                'cell text DENOTES is property C06; here the typed importers are exercised as state machines over the reader passes '
                '(float / date / datetime importers keep no state between passes beyond their append position and are covered by C06)',
